@@ -103,6 +103,7 @@ type workerOut struct {
 	Runs       int            `json:"runs"`
 	Hashes     []uint64       `json:"hashes"`
 	EventHash  []uint64       `json:"event_hashes,omitempty"`
+	Unseeded   []uint64       `json:"unseeded,omitempty"`
 	Faults     map[string]int `json:"faults"`
 	Probes     map[string]int `json:"probes"`
 	SimNanos   int64          `json:"sim_nanos"`
@@ -188,6 +189,7 @@ func worker(t *testing.T, p *Prop, tier string, base uint64, from, to int, outPa
 		}
 		if wantEventHashes {
 			out.EventHash = append(out.EventHash, o.EventHash)
+			out.Unseeded = append(out.Unseeded, o.Unseeded)
 		}
 		for k, v := range o.Faults {
 			out.Faults[k] += v
@@ -854,4 +856,68 @@ func clip(s string, n int) string {
 		return s[:n] + "\n...[truncated]"
 	}
 	return s
+}
+
+// parentDeterminism runs the first n runs of p in several fresh processes at different
+// GOMAXPROCS values and checks that the event-log hash of every run is a function of the
+// seed (and of the Go runtime's unseedable select picks, where a run had multi-ready selects).
+func parentDeterminism(p *Prop, tier string, base uint64, n int) int {
+	total := p.Runs(tier)
+	if p.Enumerate != nil {
+		total = len(p.Enumerate(tier))
+	}
+	if n > total {
+		n = total
+	}
+	tmp, err := os.MkdirTemp("", "simcheck-det-")
+	if err != nil {
+		return 2
+	}
+	defer os.RemoveAll(tmp)
+	procs := []int{1, 4, 16, 1, 16, 4}
+	type key struct {
+		run      int
+		unseeded uint64
+	}
+	seen := map[key]uint64{}
+	differ, compared, multi := 0, 0, 0
+	for pi, gmp := range procs {
+		out := filepath.Join(tmp, fmt.Sprintf("d%d.json", pi))
+		cmd := childCmd("-sim.cmd=worker", "-sim.prop="+p.ID, "-sim.tier="+tier, fmt.Sprintf("-sim.seed=%d", base),
+			"-sim.from=0", fmt.Sprintf("-sim.to=%d", n), "-sim.out="+out, "-sim.eventhashes")
+		cmd.Env = append(cmd.Env, fmt.Sprintf("GOMAXPROCS=%d", gmp), "SIM_RACE_LOG="+filepath.Join(tmp, "race"), "GORACE=halt_on_error=0 exitcode=0 log_path="+filepath.Join(tmp, "race"))
+		if p.Enumerate != nil {
+			cmd.Env = append(cmd.Env, fmt.Sprintf("SIM_ENUM_LEN=%d", total))
+		}
+		if b, err := cmd.CombinedOutput(); err != nil {
+			fmt.Fprintf(os.Stderr, "HARNESS-FAULT: determinism worker failed: %v\n%s\n", err, tail(string(b), 2000))
+			return 2
+		}
+		var wo workerOut
+		b, _ := os.ReadFile(out)
+		if json.Unmarshal(b, &wo) != nil || wo.Fault != "" {
+			fmt.Fprintf(os.Stderr, "HARNESS-FAULT: determinism worker: %s\n", wo.Fault)
+			return 2
+		}
+		for i, h := range wo.EventHash {
+			k := key{i, wo.Unseeded[i]}
+			if prev, ok := seen[k]; ok {
+				compared++
+				if prev != h {
+					differ++
+					fmt.Printf("NONDETERMINISTIC: %s run %d (seed %d): event-log hash %d vs %d at GOMAXPROCS=%d\n", p.ID, i, runSeed(base, p.ID, i), prev, h, gmp)
+				}
+			} else {
+				if pi > 0 {
+					multi++ // same seed, different runtime select picks: a legitimately different run
+				}
+				seen[k] = h
+			}
+		}
+	}
+	fmt.Printf("determinism %s: %d runs x %d processes (GOMAXPROCS %v): %d comparisons, %d differing, %d runs re-rolled by runtime select picks\n", p.ID, n, len(procs), procs, compared, differ, multi)
+	if differ > 0 {
+		return 1
+	}
+	return 0
 }
